@@ -357,6 +357,12 @@ class Report:
             "tlc_runs": self.tlc_runs,
             "known_findings_hit": {k: v["count"] for k, v in self.known_hits.items()},
         }
+        sigc = {}
+        for v in self.violations:
+            k = json.dumps(v["signature"], sort_keys=True)
+            sigc[k] = sigc.get(k, 0) + 1
+        if sigc:
+            cov["violation_signatures"] = sigc
         if self.exhaustive is not None:
             cov["exhaustive"] = bool(self.exhaustive)
         cov.update(self.extra)
